@@ -164,7 +164,39 @@ func c11(args []string) error {
 				}
 				return hex.EncodeToString(b)
 			}
-			if kind == 14 && r.Intn(4) == 0 {
+			if kind == 13 && r.Intn(3) == 0 {
+				// a compressed output file written twice, more than a second apart: the bytes may not carry the clock
+				ext := []string{".gz", ".gz", ".xz", ".bz2"}[r.Intn(4)]
+				o1f, o2f := filepath.Join(dir, "o1.ph"+ext), filepath.Join(dir, "o2.ph"+ext)
+				a1 := runCLI(bin, dir, "reformat", "phylip", "-i", in, "-o", o1f)
+				time.Sleep(1100 * time.Millisecond)
+				a2 := runCLI(bin, dir, "reformat", "phylip", "-i", in, "-o", o2f)
+				emit(0, "reformat phylip -o file"+ext, names, seqs, nil, 0, dyadic{1, 1}, false, []string{a1.stdout, readHex(o1f)}, []string{a2.stdout, readHex(o2f)}, a1.rc, a2.rc,
+					map[string]interface{}{"op": "twice:reformat -o " + ext, "names": names, "seqs": seqs, "rc": a1.rc})
+				stats["twice:reformat -o "+ext]++
+			} else if kind == 13 && r.Intn(2) == 0 {
+				// sample rarefy with a seed: counts with ties (the draw must not depend on the order of a Go map)
+				cf := filepath.Join(dir, "counts.txt")
+				var cb strings.Builder
+				for k := range names {
+					fmt.Fprintf(&cb, "%s\t%d\n", names[k], []int{5, 5, 5, 3}[r.Intn(4)])
+				}
+				os.WriteFile(cf, []byte(cb.String()), 0644)
+				nb := 1 + r.Intn(3*len(names)-1)
+				a1 := runCLI(bin, dir, "sample", "rarefy", "-i", in, "-c", cf, "-n", fmt.Sprint(nb), "--seed", fmt.Sprint(seed))
+				outs1, outs2 := []string{a1.stdout}, []string{}
+				rc2 := a1.rc
+				for q := 0; q < 4; q++ { // several executions: the order of a map changes from run to run
+					a2 := runCLI(bin, dir, "sample", "rarefy", "-i", in, "-c", cf, "-n", fmt.Sprint(nb), "--seed", fmt.Sprint(seed))
+					if a2.stdout != a1.stdout || a2.rc != a1.rc || q == 3 {
+						outs2, rc2 = []string{a2.stdout}, a2.rc
+						break
+					}
+				}
+				emit(0, "sample rarefy", names, seqs, nil, 0, dyadic{1, 1}, false, outs1, outs2, a1.rc, rc2,
+					map[string]interface{}{"op": "twice:sample rarefy", "rseed": seed, "names": names, "seqs": seqs, "rc": a1.rc})
+				stats["twice:sample rarefy"]++
+			} else if kind == 14 && r.Intn(4) == 0 {
 				// seeded bootstrap archive, written twice more than a second apart
 				a1 := runCLI(bin, dir, "build", "seqboot", "-i", in, "-n", "2", "--seed", fmt.Sprint(seed), "--tar", "-o", filepath.Join(dir, "boot1"))
 				time.Sleep(1100 * time.Millisecond)
